@@ -690,7 +690,7 @@ fn mode_case(rng: &mut Rng, inp: &mut String, out: &mut String) {
 /// Whole blocks through the real `Scheduler` (parallel: deferred rewards folded at ordered commit;
 /// forced sequential: immediate mode) against in-order stock revm (`e2e::oracle`). No model is
 /// involved: any difference is a concrete failing input for the property itself.
-fn block_case(rng: &mut Rng, inp: &mut String, out: &mut String) {
+fn block_case(rng: &mut Rng, inp: &mut String, out: &mut String, emit: &mut dyn FnMut(&str)) {
     use revm_primitives::TxKind;
     use verif_harness::e2e::{self, BlockSpec, RunCfg};
     let n_txs = rng.range(1, 10) as usize;
@@ -797,6 +797,7 @@ fn block_case(rng: &mut Rng, inp: &mut String, out: &mut String) {
     }
     let block = BlockSpec { spec, disable_nonce_check: false, basefee, beneficiary, txs, descr };
     write!(inp, "block spec={:?} basefee={} role={} n={} [{}]", spec, basefee, role, n_txs, block.descr.join("; ")).unwrap();
+    emit(inp);
     let oracle = e2e::oracle(&world.db, &block);
     let mut diffs = Vec::new();
     let workers = rng.range(2, 4) as usize;
@@ -822,6 +823,25 @@ fn main() {
     std::panic::set_hook(Box::new(|_| {})); // expected panics (asserts of the real code) stay quiet
     let mut rng = Rng::new(seed ^ 0xC07);
     let (mut inp, mut out) = (String::new(), String::new());
+    fs::create_dir_all(outdir).unwrap();
+    if kind == "block" {
+        // written case by case so that a run that never returns leaves its input behind
+        use std::io::Write as _;
+        let mut fi = fs::File::create(format!("{outdir}/ben_block.in")).unwrap();
+        let mut fo = fs::File::create(format!("{outdir}/ben_block.impl")).unwrap();
+        for _ in 0..count {
+            let mut case_rng = rng.fork();
+            let (mut inp, mut out) = (String::new(), String::new());
+            // the input line is complete before the block runs
+            block_case(&mut case_rng, &mut inp, &mut out, &mut |line: &str| {
+                writeln!(fi, "{line}").unwrap();
+                fi.flush().unwrap();
+            });
+            writeln!(fo, "{out}").unwrap();
+            fo.flush().unwrap();
+        }
+        return;
+    }
     for n in 0..count {
         let mut case_rng = rng.fork();
         match kind.as_str() {
@@ -831,7 +851,6 @@ fn main() {
                 2 => apply_case(&mut case_rng, &mut inp, &mut out),
                 _ => mode_case(&mut case_rng, &mut inp, &mut out),
             },
-            "block" => block_case(&mut case_rng, &mut inp, &mut out),
             k => {
                 eprintln!("unknown kind {k}");
                 std::process::exit(2)
